@@ -409,6 +409,8 @@ _OMD = _OMD + _cls_methods(OMD, 'boltons.dictutils', [
     {'py': 'iterkeys', 'name': 'iterkeys', 'kind': 'generator', 'params': {'multi': 'Bool'}, 'result': 'κ',
      'loop_fuel': True, 'key_locals': ['k'], 'yield_unbox': True, 'locals': {'yielded': 'List κ'},
      'tie_theorem': 'C01.src_iterkeys_eq_model'},
+    {'py': 'iteritems', 'name': 'iteritems', 'kind': 'generator', 'params': {'multi': 'Bool'}, 'result': 'κ × ν',
+     'loop_fuel': True, 'key_locals': [], 'yield_unbox': ['key', 'val'], 'tie_theorem': 'C01.src_iteritems_eq_model'},
 ])
 OMD['methods'] = _OMD
 for _sp in _OMD:
